@@ -124,6 +124,7 @@ def rule_ctls12(prog, D):
     K = Sym('kripke', ('inst', prog.cls('kripke.Kripke')))
     FL = Sym('fair_label')
     gens = c19.discover_name_generators(prog)
+    r1.transparent = r2.transparent = tuple({elim, quant} | set(gens))
     shapes = []
     for name, ci in sorted(al.items()):
         if name == 'AtomicProposition':
@@ -155,7 +156,8 @@ def rule_ctls12(prog, D):
             r1.fail(Finding(PROP, 'R-CTLS-1', elim.where(), elim.short(),
                             'paths:%s:%d' % (name, len(res)),
                             'the eliminator has %d outcomes for a %s '
-                            'formula' % (len(res), name)))
+                            'formula' % (len(res), name)),
+                    witness=outs)
             continue
         p, v = res[0]
         if kind == 'bad':
@@ -167,13 +169,14 @@ def rule_ctls12(prog, D):
                 r1.fail(Finding(PROP, 'R-CTLS-1', elim.where(),
                                 elim.short(), 'non-formula',
                                 'a non-formula is not rejected with '
-                                'TypeError: %r' % (v,)))
+                                'TypeError: %r' % (v,)),
+                        witness=v if not isinstance(v, Raise) else None)
             continue
         if isinstance(v, Raise):
             r1.fail(Finding(PROP, 'R-CTLS-1', I.where(v.node, mod),
                             elim.short(), 'raise:' + name,
                             'the eliminator raises %r on a %s formula' % (
-                                v.exc, name)))
+                                v.exc, name)), witness=v)
             continue
         if kind == 'leaf':
             if v == val:
@@ -181,7 +184,8 @@ def rule_ctls12(prog, D):
             else:
                 r1.fail(Finding(PROP, 'R-CTLS-1', elim.where(),
                                 elim.short(), 'leaf:' + name,
-                                'an atom is replaced by %r' % (v,)))
+                                'an atom is replaced by %r' % (v,)),
+                        witness=v)
             continue
         if kind == 'op':
             want_kids = [App('call', FRef(elim), Tup([K, h, FL]), Tup(()))
@@ -202,7 +206,7 @@ def rule_ctls12(prog, D):
                     'over its processed children in order (operands of U, '
                     'R, --> would be swapped, dropped or duplicated)' % (
                         name, v),
-                    expected='%s(processed children in order)' % name))
+                    expected='%s(processed children in order)' % name), witness=v)
             continue
         # quantified formula
         adds = [e for e in p.log if e.kind == 'mutate' and e.name == 'add']
@@ -223,7 +227,7 @@ def rule_ctls12(prog, D):
             r1.fail(Finding(PROP, 'R-CTLS-1', elim.where(), elim.short(),
                             'quant-return:' + name,
                             'a quantified subformula is replaced by %r, not '
-                            'by an atomic proposition' % (v,)))
+                            'by an atomic proposition' % (v,)), witness=v)
         # provenance
         ok_q = len(qcalls) == 1 and list(qcalls[0].args[0][:2]) == [K, val]
         ok_add = len(adds) == 1 and adds[0].args[0] == name_v and \
@@ -274,6 +278,7 @@ def rule_ctls45(prog, D):
     K = Sym('kripke', ('inst', prog.cls('kripke.Kripke')))
     ctl_mc = prog.func('CTL.model_checking.modelcheck')
     ltl_mc = prog.func('LTL.model_checking.modelcheck')
+    r4.transparent = r5.transparent = (elim, quant, ctl_mc, ltl_mc)
     for q in ('A', 'E'):
         hooks = _ElimHooks(prog, {elim, quant})
         I = Interp(prog, hooks, rule='R-CTLS-4')
@@ -295,7 +300,7 @@ def rule_ctls45(prog, D):
                     PROP, 'R-CTLS-5', quant.where(), quant.short(),
                     'origin:%s:%s' % (q, repr(v)[:80]),
                     'checking a %s-quantified formula returns %r, which is '
-                    'not the result of CTL/LTL modelcheck' % (q, v)))
+                    'not the result of CTL/LTL modelcheck' % (q, v)), witness=v)
                 continue
             a = v.args[1].items
             target = v.args[0].fi
@@ -401,7 +406,7 @@ def rule_ctls45(prog, D):
                 PROP, 'R-CTLS-5', entry.where(), entry.short(),
                 'entry:%s' % repr(v)[:80],
                 'CTLS.modelcheck returns %r: not CTL.modelcheck(clone, '
-                'eliminator(clone, formula))' % (v,)))
+                'eliminator(clone, formula))' % (v,)), witness=v)
     if n == 0:
         raise Inconclusive('R-CTLS-5', 'no returning path', entry.where())
     return r4, r5
